@@ -92,6 +92,13 @@ class Scenario:
         return res
 
 
+def key_of(obj):
+    import hashlib
+    import json
+
+    return hashlib.blake2b(json.dumps(obj, sort_keys=True, default=repr).encode(), digest_size=8).hexdigest()
+
+
 def drop_each(lst):
     """Candidates with one element removed, trying later elements first."""
     for i in range(len(lst) - 1, -1, -1):
